@@ -36,6 +36,8 @@ def gen_schema(rng, force_kind=None):
             r = {'kind': kind, 'sym': False,
                  'a': {'ent': ea, 'coll': False, 'req': areq, 'opt_casc': True if casc == 'a' else None},
                  'b': {'ent': eb, 'coll': False, 'req': breq, 'opt_casc': True if casc == 'b' else None}}
+            if areq and ea not in pk_ents and rng.random() < 0.4:
+                r['pk'] = True; pk_ents.add(ea)                        # PrimaryKey(one-to-one reference, tag)
         elif kind == 'm2o':
             r = {'kind': kind, 'sym': False,
                  'a': {'ent': ea, 'coll': False, 'req': rng.random() < 0.4, 'opt_casc': None},
@@ -84,6 +86,7 @@ class World:
         for i, r in enumerate(schema['rels']):                 # what `composite_key(ref, tag)` in the class body does
             if r.get('ckey') or r.get('pk'):
                 sn = 'b' if r['a']['coll'] else 'a'
+                if r['kind'] == 'o2o': sn = 'a'
                 d = dicts[r[sn]['ent']]
                 d.setdefault('_indexes_', []).append(core.Index(d['r%d%s' % (i, sn)], d['tag'], is_pk=bool(r.get('pk')), is_unique=True))
         self.classes = [type('E%d' % e, (db.Entity,), dicts[e]) for e in range(nent)]
@@ -140,6 +143,11 @@ class World:
             obj = self.objs[op['o']]
             if k == 'delete':
                 obj.delete(); return None
+            if k == 'setMany':
+                kw = {}
+                for a, v in op['refs']: kw[self.names[tuple(a)]] = None if v is None else self.objs[v]
+                for a, items in op['colls']: kw[self.names[tuple(a)]] = [self.objs[i] for i in items]
+                obj.set(**kw); return None
             name = self.names[tuple(op['a'])]
             if k == 'setRef':
                 setattr(obj, name, None if op['v'] is None else self.objs[op['v']])
@@ -157,6 +165,8 @@ class World:
                 else: getattr(obj, name).remove(items)
             elif k == 'clear':
                 getattr(obj, name).clear()
+            elif k == 'setMany':
+                pass
             else:
                 raise RuntimeError('unknown op ' + k)
             return None
@@ -274,6 +284,20 @@ def gen_op(rng, w, allow_bad=True):
     if r < 0.40:
         return {'k': 'delete', 'o': o}, tag
     e = w.classes.index(type(objs[o]))
+    if rng.random() < 0.09:
+        keys = rng.sample(w.ent_attrs[e], min(len(w.ent_attrs[e]), rng.choice([1, 2, 2, 3])))
+        refs, colls = [], []
+        for key in keys:
+            if w.side(key)['coll']:
+                items = []
+                for _ in range(rng.choice([0, 1, 2])):
+                    v, t = pick_value(key, False)
+                    if v is not None and v not in items: items.append(v)
+                colls.append([list(key), sorted(items)])
+            else:
+                v, t = (None, None) if rng.random() < 0.25 else pick_value(key, False)
+                refs.append([list(key), v])
+        return {'k': 'setMany', 'o': o, 'refs': refs, 'colls': colls}, tag
     key = rng.choice(w.ent_attrs[e])
     s = w.side(key)
     if not s['coll']:
@@ -300,6 +324,17 @@ def gen_op(rng, w, allow_bad=True):
 def model_op(op):
     m = {k: v for k, v in op.items() if k not in ('via', 'tag')}
     return m
+
+
+def expand(op):
+    """the model has no Entity.set(**kw): it is compared with the sequence of single assignments in keyword order"""
+    if op['k'] != 'setMany': return [model_op(op)]
+    return [{'k': 'setRef', 'o': op['o'], 'a': a, 'v': v} for a, v in op['refs']] + \
+           [{'k': 'setColl', 'o': op['o'], 'a': a, 'items': items} for a, items in op['colls']]
+
+
+def flat(ops):
+    return [m for o in ops if not o.get('skip_model') for m in expand(o)]
 
 
 def norm_dump(objs):
@@ -434,7 +469,7 @@ def memory_phase(ctx, rng, nhist, nops):
                                       {'schema': schema, 'ops': ops + [op]}, observed=dangling(w, snap)[0], key='dangling:%s/%s' % (op['k'], err or 'ok'))
                         violated = True; break
                 if count_mismatch(w): ctx.count('observation-for-C10:SetData.count-differs-from-len')
-                if err is not None and err not in MODEL_ERRS:
+                if err is not None and (err not in MODEL_ERRS or op['k'] == 'setMany'):
                     # a failure cause outside the model (key clash ...): the model's answer for any failing call is "nothing changed"
                     ctx.count('failure-outside-model:%s:%s' % (err, 'state-unchanged' if norm_dump(snap) == norm_dump(prev) else 'STATE-CHANGED'))
                     if norm_dump(snap) != norm_dump(prev): break
@@ -460,7 +495,7 @@ def memory_phase(ctx, rng, nhist, nops):
         w.db.disconnect()
     if not ctx.driver.ok:
         ctx.note('driver unavailable: the correspondence part is skipped, the oracle still runs'); return
-    outs = ctx.driver('C12', [{'op': 'run', 'schema': w.model_schema, 'ops': [model_op(o) for o in ops if not o.get('skip_model')]} for _, w, ops, _ in batch])
+    outs = ctx.driver('C12', [{'op': 'run', 'schema': w.model_schema, 'ops': flat(ops)} for _, w, ops, _ in batch])
     for (schema, w, ops, real), out in zip(batch, outs):
         steps = out.get('steps')
         if steps is None:
@@ -469,7 +504,12 @@ def memory_phase(ctx, rng, nhist, nops):
         k = -1
         for i, (err, snap, tag) in enumerate(real):
             if ops[i].get('skip_model'): continue
-            k += 1
+            ex = expand(ops[i])
+            if not ex: continue
+            if any(steps[j]['err'] for j in range(k + 1, k + len(ex))) or (len(ex) > 1 and steps[k + len(ex)]['err']):
+                ctx.count('setMany:single-assignments-fail-where-set-succeeds'); break      # not comparable: Entity.set is not the sequence here
+            k += len(ex)
+            if ops[i]['k'] == 'setMany': ctx.count('setMany:compared-with-single-assignments')
             m = steps[k]
             hist = {'schema': schema, 'ops': ops[:i + 1]}
             if not m.get('inv'): ctx.count('model:inv-false')
@@ -591,14 +631,15 @@ def reload_phase(ctx, rng, w, ops, real, pks):
                 continue
             more.append((op, err, snap))
         if more and ctx.driver.ok:
-            out = ctx.driver('C12', [{'op': 'run', 'schema': w.model_schema, 'ops': [model_op(o) for o in ops] + [model_op(o) for o, _, _ in more]}])[0]
+            base = flat(ops)
+            out = ctx.driver('C12', [{'op': 'run', 'schema': w.model_schema, 'ops': base + [model_op(o) for o, _, _ in more]}])[0]
             steps = out.get('steps')
             if steps is None:
                 if 'unknown property' in str(out.get('driver_error')): raise RuntimeError('the shared driver executable was replaced while running: %r' % out)
                 ctx.divergence('driver error', {'schema': w.schema, 'ops': ops}, model=out)
             else:
                 for j, (op, err, snap) in enumerate(more):
-                    m = steps[len(ops) + j]
+                    m = steps[len(base) + j]
                     hist = {'schema': w.schema, 'ops': ops, 'commit_reload_then': [o for o, _, _ in more[:j + 1]]}
                     ctx.case({'reload-op': op, 'j': j}, nontrivial=True, kind='reload-call')
                     bad = ends_disagree(w, snap) if snap is not None else []
@@ -757,6 +798,11 @@ def check_fixed(ctx, schema, ops, kind):
             snap = w.snapshot()
             ctx.case({'schema': w.model_schema, 'op': op, 'i': i, 'directed': kind}, nontrivial=True, kind='directed-call')
             ctx.count('directed:%s:%s:%s' % (kind, op['k'], err or 'ok'))
+            zs = untracked_one_sided(w)
+            if zs:
+                ctx.violation('the session holds an object no call returned (left by a failed call) whose relationship value does not know it',
+                              {'schema': schema, 'ops': ops[:i + 1]}, observed=zs[0], key='untracked-object-one-sided:%s/%s' % (op['k'], err or 'ok'))
+                stop = True; break
             bad = ends_disagree(w, snap)
             if bad:
                 p, key, q, why = bad[0]
@@ -772,18 +818,30 @@ def check_fixed(ctx, schema, ops, kind):
     if found is not None:
         report_violation(ctx, schema, ops[:found[0] + 1], found[0], found[1], found[2])
     if stop or not ctx.driver.ok: return
-    out = ctx.driver('C12', [{'op': 'run', 'schema': w.model_schema, 'ops': [model_op(o) for o, r in zip(ops, real) if not r[2]]}])[0]
-    steps = out.get('steps')
-    if steps is None:
-        if 'unknown property' in str(out.get('driver_error')): raise RuntimeError('driver: %r' % out)
-        ctx.divergence('driver error', {'schema': schema, 'ops': ops}, model=out); return
-    k = -1
-    for i, (err, snap, skip) in enumerate(real):
-        if skip: continue
-        k += 1
-        m = steps[k]
-        if (m['err'] or None) != (err or None) or [o for o in norm_dump(m['objs']) if o['alive']] != [o for o in norm_dump(snap) if o['alive']]:
-            ctx.divergence('model and real code differ on a directed history', {'schema': schema, 'ops': ops[:i + 1]}, model=[m['err'], m['objs']], impl=[err, snap]); return
+    FIXED_BATCH.append((schema, w.model_schema, list(ops), real))
+
+
+FIXED_BATCH = []
+
+
+def flush_fixed(ctx):
+    """one driver call for all fixed / directed histories collected so far"""
+    global FIXED_BATCH
+    batch, FIXED_BATCH = FIXED_BATCH, []
+    if not batch or not ctx.driver.ok: return
+    outs = ctx.driver('C12', [{'op': 'run', 'schema': ms, 'ops': [model_op(o) for o, r in zip(ops, real) if not r[2]]} for _, ms, ops, real in batch])
+    for (schema, ms, ops, real), out in zip(batch, outs):
+        steps = out.get('steps')
+        if steps is None:
+            if 'unknown property' in str(out.get('driver_error')): raise RuntimeError('driver: %r' % out)
+            ctx.divergence('driver error', {'schema': schema, 'ops': ops}, model=out); continue
+        k = -1
+        for i, (err, snap, skip) in enumerate(real):
+            if skip: continue
+            k += 1
+            m = steps[k]
+            if (m['err'] or None) != (err or None) or [o for o in norm_dump(m['objs']) if o['alive']] != [o for o in norm_dump(snap) if o['alive']]:
+                ctx.divergence('model and real code differ on a directed history', {'schema': schema, 'ops': ops[:i + 1]}, model=[m['err'], m['objs']], impl=[err, snap]); break
 
 
 def directed_phase(ctx, rng, n):
@@ -800,6 +858,7 @@ def directed_phase(ctx, rng, n):
             if 'b' in r: r['b']['ent'] = min(r['b']['ent'], 1)
             if r.get('kind') == 'o2o' or r.get('kind') == 'm2o':
                 for sd in ('a', 'b'): r[sd]['req'] = False
+                r.pop('pk', None)
         schema = {'nent': 2, 'rels': [rel] + extra}
         nown = rng.choice([1, 2])
         ops = [{'k': 'create', 'e': 0, 'vals': [], 'tag': 0} for _ in range(nown)]
@@ -824,6 +883,33 @@ def directed_phase(ctx, rng, n):
             ctx.count('schema-rejected:directed')
 
 
+def directed_pk_phase(ctx, rng, n):
+    """constructor calls that fail while the relationship attribute that is part of the primary key is linked
+    (partner's required reference cannot be unlinked / deleted target / wrong order of values)"""
+    for _ in range(n):
+        casc = rng.choice([None, None, True])
+        if rng.random() < 0.6:
+            rel = {'kind': 'o2o', 'sym': False, 'a': S(0, req=True), 'b': S(1, casc=casc), 'pk': True}
+        else:
+            rel = {'kind': 'm2o', 'sym': False, 'a': S(0, req=True), 'b': S(1, coll=True, casc=rng.choice([None, False])), 'pk': True}
+        extra = [{'kind': 'm2m', 'sym': False, 'a': S(0, coll=True), 'b': S(1, coll=True)}] if rng.random() < 0.5 else []
+        schema = {'nent': 2, 'rels': [rel] + extra}
+        ops = [{'k': 'create', 'e': 1, 'vals': [], 'tag': 0}, {'k': 'create', 'e': 1, 'vals': [], 'tag': 0}]
+        def mk(target, tag):
+            vals = [[[0, False], {'ref': target}]]
+            if extra and rng.random() < 0.5: vals.append([[1, False], {'coll': [rng.choice([0, 1])]}])
+            return {'k': 'create', 'e': 0, 'vals': vals, 'tag': tag}
+        ops.append(mk(0, 0))
+        how = rng.choice(['steal', 'steal', 'dead-target', 'same-key'])
+        if how == 'steal': ops.append(mk(0, 1))                      # the partner's Required reference cannot be unlinked (one-to-one)
+        elif how == 'same-key': ops.append(mk(0, 0))
+        else:
+            ops.append({'k': 'delete', 'o': 1}); ops.append(mk(1, 0))
+        ops.append(mk(1, 1) if how != 'dead-target' else mk(0, 1))
+        ops.append({'k': 'delete', 'o': 0})
+        check_fixed(ctx, schema, ops, 'pk-' + how)
+
+
 def run(ctx):
     witnesses(ctx)
     rng = ctx.rng
@@ -833,6 +919,8 @@ def run(ctx):
             c = json.load(open(os.path.join(corpus, f)))
             check_fixed(ctx, c['schema'], c['ops'], 'corpus:' + f[:-5])
     directed_phase(ctx, rng, ctx.scale(60, 600))
+    directed_pk_phase(ctx, rng, ctx.scale(30, 300))
+    flush_fixed(ctx)
     memory_phase(ctx, rng, ctx.scale(140, 2500), ctx.scale(14, 22))
 
 
